@@ -24,9 +24,10 @@ BUILDS = ['str+=', 'str+', 'gstr+=', 'sprintf', 'repeat', 'replace', 'implode', 
 
 def gen(rng, tier, i):
     p = Plan()
-    p.file('mcfg.h', mcfg({}))
+    # a master without error_handler() matters: the handler apply at full call depth would itself hit the limit and mark the error
+    p.file('mcfg.h', mcfg({'NO_ERROR_HANDLER': 1} if rng.random() < 0.3 else {}))
     p.cfg('Port', '4000:telnet')
-    lim = {'MaxEvaluationCost': rng.choice((3000, 6000, 20000, 40000)), 'MaxCallDepth': rng.choice((16, 20, 30, 60)),
+    lim = {'MaxEvaluationCost': rng.choice((3000, 6000, 20000, 40000)), 'MaxCallDepth': rng.choice((16, 17, 20, 25, 30, 31, 60)),
            'StackSize': rng.choice((150, 300, 1000)), 'MaxArraySize': rng.choice((64, 500, 15000, 70000)),
            'MaxMappingSize': rng.choice((64, 500, 15000)), 'MaxStringLength': rng.choice((600, 4000, 70000)),
            'MaxBufferSize': rng.choice((64, 2000, 70000))}
